@@ -52,10 +52,10 @@ def change_one(g: VGen, v: dict) -> Optional[Tuple[dict, str]]:
         elif k in ("list", "set", "utuple", "map"):
             opts += ["coerce", "drop_pred", "add_pred", "coerce_fn", "apred"]
         elif k == "ntuple":
-            opts += ["coerce", "oc", "drop_field"]
+            opts += ["coerce", "oc", "drop_field", "oc_fn"]
         elif k == "record":
             opts += ["failUnknown", "req", "oc", "drop_key", "coerce", "into", "cls", "swap_keys", "swap_keys", "swap_keys",
-                     "coerce_fn"]
+                     "coerce_fn", "aoc", "aoc", "oc_fn"]
         elif k == "union":
             opts += ["swap", "swap", "drop_variant"]
         elif k == "none":
@@ -65,7 +65,7 @@ def change_one(g: VGen, v: dict) -> Optional[Tuple[dict, str]]:
     r.shuffle(cands)
     # rare operators first half of the time, so that every constructor argument is varied often
     if r.random() < 0.5:
-        cands.sort(key=lambda c: 0 if c[2] in ("swap_keys", "swap", "coerce_fn", "apred", "req", "cls", "into", "match_type") else 1)
+        cands.sort(key=lambda c: 0 if c[2] in ("swap_keys", "swap", "coerce_fn", "apred", "req", "cls", "into", "match_type", "aoc", "oc_fn") else 1)
     for path, n, o in cands:
         how = apply_change(g, n, o)
         if how:
@@ -182,6 +182,20 @@ def apply_change(g: VGen, n: dict, o: str) -> Optional[str]:
             n[key] = {"id": g.cb(), "fn": {"f": "fail", "e": g.cb()}}
             return "object check added"
         return None
+    if o == "aoc" and k == "record":
+        if n.get("aoc"):
+            if r.random() < 0.5:
+                n["aoc"] = None
+                return "async object check removed"
+            n["aoc"] = {"id": g.cb(), "fn": {"f": "fail", "e": g.cb()}}
+            return "async object check replaced by another callback"
+        if not n.get("oc"):
+            n["aoc"] = {"id": g.cb(), "fn": {"f": "fail", "e": g.cb()}}
+            return "async object check added"
+        return None
+    if o == "oc_fn" and n.get("oc"):
+        n["oc"] = {"id": g.cb(), "fn": {"f": "fail", "e": g.cb()}}
+        return "object check replaced by another callback"
     if o == "drop_field" and n.get("fields"):
         n["fields"].pop()
         return "a slot removed"
@@ -251,6 +265,135 @@ def gen_case(g: VGen, opts: dict) -> dict:
 def has_nan(x: Any) -> bool:
     s = json.dumps(x)
     return '"nan"' in s or '"snan"' in s
+
+
+# ---- object identities: the model's notion of "same configuration" and executable instances of C19_rename ----
+
+ID_KEYS = ("vid", "pid", "lenPid")
+
+
+def user_pids(d: Any, acc: Optional[set] = None) -> set:
+    """identities of user-written predicates / processors (compared by identity: their identity *is* configuration)"""
+    acc = set() if acc is None else acc
+    if isinstance(d, dict):
+        if d.get("k") == "user" and "pid" in d:
+            acc.add(d["pid"])
+        for v in d.values():
+            user_pids(v, acc)
+    elif isinstance(d, list):
+        for v in d:
+            user_pids(v, acc)
+    return acc
+
+
+def rename_desc(d: Any, pf: Any, vf: Any) -> Any:
+    """the wire-level counterpart of `V.rn`: every validator identity through vf, every predicate / processor identity
+    through pf (values carry neither key)"""
+    if isinstance(d, dict):
+        out = {}
+        for k, v in d.items():
+            if k == "vid":
+                out[k] = vf(v)
+            elif k in ("pid", "lenPid"):
+                out[k] = pf(v)
+            elif k == "knrVids":
+                out[k] = [vf(i) for i in v]
+            else:
+                out[k] = rename_desc(v, pf, vf)
+        return out
+    if isinstance(d, list):
+        return [rename_desc(v, pf, vf) for v in d]
+    return d
+
+
+def rename_answer(a: dict, pf: Any, vf: Any) -> dict:
+    """the wire-level counterpart of `rnRes`"""
+    def inv(e: dict) -> dict:
+        err = dict(e["err"])
+        if err.get("e") == "preds":
+            err["pids"] = [pf(i) for i in err["pids"]]
+        return {"err": err, "value": e["value"], "vid": vf(e["vid"]), "children": [inv(c) for c in e["children"]]}
+    if "out" not in a:
+        return a
+    out = a["out"]
+    if "invalid" in out:
+        out = {"invalid": inv(out["invalid"])}
+    tr = []
+    for ev in a.get("trace", []):
+        if ev[0] in ("pred", "apred", "proc"):
+            tr.append([ev[0], pf(ev[1])])
+        elif ev[0] == "uv":
+            tr.append([ev[0], vf(ev[1]), ev[2]])
+        else:
+            tr.append(ev)
+    return {"out": out, "trace": tr}
+
+
+def same_configuration(case: dict) -> bool:
+    """`a.rn r = b.rn r` for r = (validator identities -> 0, built-in predicate identities -> 0, user callbacks kept):
+    the hypothesis of `C19_congruence`, decided on the descriptions the model's trees are decoded from"""
+    keep = user_pids([case["v"], case["w"], case["env"]])
+    pf = lambda i: i if i in keep else 0      # noqa: E731
+    vf = lambda i: 0                          # noqa: E731
+    return json.dumps(rename_desc(case["v"], pf, vf), sort_keys=True) == json.dumps(rename_desc(case["w"], pf, vf), sort_keys=True)
+
+
+def equal_parameters(a: Any, b: Any, typed: bool = True) -> bool:
+    """the two descriptions differ at most in parameter *values* that Python's `==` identifies (Decimal('0') and
+    Decimal('-0'), 1 and 1.0 inside a predicate): such pairs are `==` and behave alike, but are not the same tree —
+    they lie outside C19_congruence and are decided by the input pool alone.  A validator's own match value must
+    also have the same type (EqualsValidator compares it); a predicate's parameter need not."""
+    if isinstance(a, dict) and isinstance(b, dict):
+        if "t" in a and "t" in b and "vid" not in a and "pid" not in a:
+            try:
+                ctx = wire.Ctx()
+                x, y = wire.mk_value(ctx, a), wire.mk_value(ctx, b)
+                return bool(x == y) and (not typed or type(x) is type(y))
+            except Exception:  # noqa
+                return a == b
+        if set(a) != set(b):
+            return False
+        inner_typed = "pid" not in a
+        return all(equal_parameters(a[k], b[k], inner_typed and typed) for k in a)
+    if isinstance(a, list) and isinstance(b, list):
+        return len(a) == len(b) and all(equal_parameters(x, y, typed) for x, y in zip(a, b))
+    return a == b
+
+
+def rename_requests(case: dict, rng: random.Random) -> Tuple[List[dict], Any, Any]:
+    """three model runs on one pool input: the tree as it is; the tree renamed inside the model by `V.rn`; the tree
+    decoded from the renamed description"""
+    from . import oracle
+    x = case["pool"][0]
+    ctx = wire.Ctx()
+    xd = wire.canon_value(ctx, wire.mk_value(ctx, x))
+    salt_p, salt_v = rng.randrange(1, 50), rng.randrange(1, 50)
+    merge = rng.random() < 0.5
+    pf = (lambda i: (i * 7 + salt_p) % 5) if merge else (lambda i: i * 3 + salt_p)       # noqa: E731
+    vf = (lambda i: (i * 5 + salt_v) % 3) if merge else (lambda i: i * 2 + salt_v)       # noqa: E731
+    ids_p, ids_v = set(), set()
+
+    def collect(d: Any) -> None:
+        if isinstance(d, dict):
+            for k, v in d.items():
+                if k == "vid":
+                    ids_v.add(v)
+                elif k in ("pid", "lenPid"):
+                    ids_p.add(v)
+                elif k == "knrVids":
+                    ids_v.update(v)
+                else:
+                    collect(v)
+        elif isinstance(d, list):
+            for v in d:
+                collect(v)
+    collect([case["v"], case["env"]])
+    mode = rng.choice(["sync", "async"])
+    tabs = oracle.tables(case["v"], case["env"], xd)
+    base = {"op": "run", "mode": mode, "env": case["env"], "v": case["v"], "x": xd, "oracle": tabs, "fuel": 400}
+    inside = dict(base, rename={"p": [[i, pf(i)] for i in sorted(ids_p)], "v": [[i, vf(i)] for i in sorted(ids_v)]})
+    outside = dict(base, env=rename_desc(case["env"], pf, vf), v=rename_desc(case["v"], pf, vf))
+    return [base, inside, outside], pf, vf
 
 
 def check_case(case: dict) -> Tuple[Optional[str], List[str], dict]:
@@ -337,6 +480,9 @@ def shard(seed: int, shard_i: int, n: int, opts: dict) -> dict:
     g = VGen(rng, async_rate=0.1, user_rate=0.1)
     stats: collections.Counter = collections.Counter()
     failures, samples = [], []
+    disagreements: List[dict] = []
+    reqs: List[dict] = []
+    req_meta: List[Tuple[dict, Any, Any]] = []
     distinct, nontrivial = set(), set()
     evaluated = 0
     from . import registry
@@ -356,11 +502,50 @@ def shard(seed: int, shard_i: int, n: int, opts: dict) -> dict:
         if c["kind"] == "change":
             stats["changed:" + c["how"].split(": ")[-1]] += 1
             nontrivial.add(h)
+        # the model's notion of equal configuration (hypothesis of C19_congruence) against the real `==`
+        same = same_configuration(c)
+        stats[f"same-configuration={same}:eq={info.get('eq')}"] += 1
+        if same and not info.get("eq"):
+            fails.append("two validators with the same configuration (equal once object identities are renamed) compare unequal")
+        lenient = same
+        if not same:
+            keep = user_pids([c["v"], c["w"], c["env"]])
+            pf = lambda i: i if i in keep else 0      # noqa: E731
+            lenient = equal_parameters(rename_desc(c["v"], pf, lambda i: 0), rename_desc(c["w"], pf, lambda i: 0))
+            if lenient:
+                stats["same-configuration-up-to-equal-parameter-values"] += 1
+        if info.get("eq") and not lenient and not fails:
+            # `==` holds although the configurations differ: outside the theorem; the pool found no input that tells
+            # them apart, so the property is no longer shown to hold for this pair
+            disagreements.append({"case": c, "mode": "both", "fields": ["eq"], "xd": c["pool"],
+                                  "real": {"eq": True}, "model": {"same_configuration": False, "changed": c["how"]}})
         for f in fails:
             failures.append({"property": "C19", "case": c, "xd": c["pool"], "what": f, "real": info})
+        if c["pool"] and not has_nan(c["pool"][0]):
+            try:
+                rq, pf, vf = rename_requests(c, rng)
+                reqs += rq
+                req_meta.append((c, pf, vf))
+            except Exception:  # noqa  (an input the wire cannot describe)
+                pass
         if len(samples) < 1 and c["kind"] == "change":
             samples.append({"v": c["v"], "changed": c["how"], "eq": info.get("eq")})
+    # executable instances of C19_rename, and the decoder's agreement with `V.rn`
+    from . import driver
+    answers = driver.run_batch(reqs) if reqs else []
+    for j, (c, pf, vf) in enumerate(req_meta):
+        base, inside, outside = answers[3 * j: 3 * j + 3]
+        stats["rename-instances"] += 1
+        if "error" in base:
+            stats["rename-instances:" + str(base.get("error"))] += 1
+            continue
+        want = rename_answer(base, pf, vf)
+        for name, got in (("renamed inside the model (V.rn)", inside), ("decoded from the renamed description", outside)):
+            if json.dumps(got, sort_keys=True) != json.dumps(want, sort_keys=True):
+                disagreements.append({"case": c, "mode": reqs[3 * j]["mode"], "fields": ["rename"], "xd": [reqs[3 * j]["x"]],
+                                      "real": {"expected": want}, "model": {"how": name, "got": got}})
     return {"evaluated": evaluated, "stats": dict(stats), "failures": failures[:30], "n_failures": len(failures),
+            "disagreements": disagreements[:20], "n_disagreements": len(disagreements),
             "distinct": list(distinct), "nontrivial": list(nontrivial), "samples": samples}
 
 
@@ -379,6 +564,8 @@ def run(pid: str, tier: str, seed: int, spec: dict, scale: float = 1.0, salt: st
         out["failures"] += r["failures"]
         out["n_failures"] += r["n_failures"]
         out["samples"] += r["samples"]
+        out["disagreements"] += r["disagreements"]
+        out["n_disagreements"] += r["n_disagreements"]
         stats.update(r["stats"])
         distinct.update(r["distinct"])
         nontrivial.update(r["nontrivial"])
